@@ -30,6 +30,7 @@ RULE = (
 )
 RULE += (" " + 'File paths have equal and different leaf directory names under different ancestors, nested and relative forms.')
 RULE += (" One document in five is a correlation rule drawing title, id and path from the same pools.")
+RULE += (" Glob sweep: every selector pattern over {a, b, _, *} up to length 4 (thorough: 6) against a rule defining every name over {a, b, _} up to length 4 (5): unused-detection and dangling-selector issues must agree with glob matching.")
 ASSUMPTIONS = [
     "vf/ref/conditions.py defines which detections a condition refers to",
     "issues are compared as multisets (the order in which issues are reported is C20's subject)",
@@ -142,7 +143,53 @@ REF_CLASSES = {"DanglingDetectionIssue": "dangling_detection", "DanglingConditio
                "DuplicateFilenameIssue": "duplicate_filename"}
 
 
+def glob_cases(tier: str):
+    import itertools
+    maxp, maxn = (4, 4) if tier == "quick" else (6, 5)
+    names = ["".join(t) for k in range(1, maxn + 1) for t in itertools.product("ab_", repeat=k)]
+    for k in range(1, maxp + 1):
+        for t in itertools.product("ab_*", repeat=k):
+            pat = "".join(t)
+            if "*" in pat:
+                yield {"kind": "glob", "pattern": pat, "names": names}
+
+
+def check_glob_case(case: dict) -> Outcome:
+    """One rule that defines every name over {a, b, _} up to a length and whose condition is '1 of <pattern>', for every
+    pattern over {a, b, _, *}: the unused-detection issues must name exactly the names the pattern does not match (glob
+    semantics of the reference matcher), and the selector is dangling iff it matches none."""
+    from sigma.collection import SigmaCollection
+    from sigma.exceptions import SigmaError
+    from sigma.validation import SigmaValidator
+    from sigma.validators.core.condition import DanglingConditionValidator, DanglingDetectionValidator
+
+    out = Outcome()
+    pat, names = case["pattern"], case["names"]
+    matched = set(rc.selector_names(pat, names))
+    out.nontrivial = 0 < len(matched) < len(names) and pat.count("*") >= 1
+    out.label("glob-sweep", "wildcards:%d" % pat.count("*"))
+    doc = {"title": "t", "logsource": {"category": "c"}, "detection": dict({n: {"f": n} for n in names}, condition="1 of " + pat)}
+    try:
+        coll = SigmaCollection.from_dicts([doc])
+        issues = SigmaValidator([DanglingDetectionValidator, DanglingConditionValidator]).validate_rules(iter(coll.rules))
+    except SigmaError as e:
+        out.fail("C19:glob:error:" + type(e).__name__, "pattern %r: %s" % (pat, e))
+        return out
+    unused = {i.detection_name for i in issues if type(i).__name__ == "DanglingDetectionIssue"}
+    dangling = [i.condition_name for i in issues if type(i).__name__ == "DanglingConditionIssue"]
+    exp_unused = set(names) - matched
+    if unused != exp_unused:
+        wrong = sorted(unused ^ exp_unused)
+        out.fail("C19:glob:unused-detections", "pattern %r: %d names judged differently, e.g. %s (%s by the validator)" % (
+            pat, len(wrong), wrong[:5], "unused" if wrong[0] in unused else "referenced"))
+    if bool(dangling) != (not matched):
+        out.fail("C19:glob:dangling-selector", "pattern %r matches %d names, dangling issues %s" % (pat, len(matched), dangling))
+    return out
+
+
 def check_case(case: dict) -> Outcome:
+    if case.get("kind") == "glob":
+        return check_glob_case(case)
     out = Outcome()
     docs = case["docs"]
     vnames = case["validators"]
@@ -245,4 +292,7 @@ def cases(draw):
 
 
 def run(ctx) -> None:
+    for i, c in enumerate(glob_cases(ctx.tier)):
+        if i % ctx.nshards == ctx.shard:
+            ctx.do(c)
     ctx.hyp(cases(), 1200 if ctx.tier == "quick" else 10000)
